@@ -182,9 +182,17 @@ def treeOutstanding (w : World) (c : EId) : Bool :=
 
 /-- is `d` reached from `t` through the tracked children lists (what the timeout cleanup walks; an event that merely names
     `t` as its parent - an explicit parent id given by the client - is not) -/
-def childReach (w : World) : Nat → EId → EId → Bool
-  | 0, t, d => t == d
-  | fuel + 1, t, d => t == d || (w.ev t).children.any fun c => childReach w fuel c d
+def childReachFrom (w : World) (d : EId) : Nat → List EId → List EId → Bool
+  | 0, _, _ => false
+  | _ + 1, [], _ => false
+  | fuel + 1, t :: rest, seen =>
+    if t == d then true
+    else if seen.contains t then childReachFrom w d fuel rest seen
+    else childReachFrom w d fuel ((w.ev t).children ++ rest) (t :: seen)
+
+/-- is `d` reachable from `t` through `event_children` (every event is expanded once) -/
+def childReach (w : World) (_fuel : Nat) (t d : EId) : Bool :=
+  childReachFrom w d (walkBudget w + (w.ev t).children.length + 1) [t] []
 
 /-- what can leave the tree of `e` stuck with a result that is never made terminal: an abandoned activation counts only
     when its event is not a descendant of the abandoning handler's event (descendants have their pending results cancelled
